@@ -3,7 +3,7 @@ from . import sheetprop as P
 
 FEATURES = "var,media,amp".split(',')
 RULE = 'see harness/props/sheetprop.py: generated stylesheets with features %s; model compared byte-for-byte, reference semantics compared on the flat items read back from the output CSS by an independent reader' % FEATURES
-ASSUMPTIONS = ['the LALR parser builds the node tree that harness/gens/sheet.py:tree() predicts (checked on every case through the byte-exact output comparison)',
+ASSUMPTIONS = ['the LALR parser builds the node tree that harness/gens/sheet.py:tree() predicts (checked on every case through the byte-exact output comparison); independently of that prediction, the whole pipeline from the source TEXT (coq/Model/Lex.v + Parse.v + Eval.v: compile_text) is compared byte for byte with the real compiler on every case (abstentions counted in distribution.text_pipeline)',
                'harness/readcss.py reads the produced CSS back correctly']
 TRUSTED = ['modelled by hand: Identifier.parse/root/fmt, Block.parse (media rotation), Property.parse/fmt, Block.fmt, Formatter, Scope (coq/Model/Ident.v, Eval.v, Fmt.v, Scope.v)',
            'reference semantics coq/Spec/Sem.v']
